@@ -398,6 +398,10 @@ def check_number_regex(chk, pm):
     alphabet = ['5', '+', '-', '.', 'e', 'E', 'x', '_', ' ']
     a = Lang(g.kids[0], alphabet)
     b = Lang(parse_tree(r'[+-]?(?:\d+(?:\.\d*)?|\.\d+)(?:[eE][+-]?\d+)?'), alphabet)
+    # vacuity guard: the inclusion engine must reject a synthetic counter-example on every run
+    neg_ok, _ = included(Lang(parse_tree(r'\d+x?'), alphabet), b)
+    if neg_ok or not a.accepts('5.5e+5') or not b.accepts('5.5e+5'):
+        raise Unrecognised('C06.E', 'automata engine self-check failed (synthetic non-inclusion not detected)', pm.mod.rel)
     ok, cex = included(a, b)
     if ok:
         chk.ok('C06.E', f'every text matched by the number literal regex group is accepted by float() (language inclusion over {len(alphabet)} representative characters)')
